@@ -408,11 +408,25 @@ def stream_shared(ctx):
 
 def run(ctx):
     proof = vlib.lean_check(ctx)
+    # the lexical contract `EscLex` of the escape table (hypothesis of C15_property_name_rendered) on Rust's own table, for every
+    # character of the working alphabets plus every Latin-1 character and a sample of other planes
+    from props import corpus
+    hb = vlib.build_hookbin(ctx)
+    if hb:
+        probe = "".join(sorted(set(corpus.ALPHABET) | {chr(i) for i in range(0, 0x250)} | set("\u2028\u2029\ufeff\u200b\u0663\u4e2d\U0001F600\x7f\x85")))
+        r = vlib.run_model([vlib.char_table(hb, probe), {"op": "esc_lex", "s": probe}])
+        if r is None or "bad" not in r[1] or r[1]["bad"]:
+            ctx.broken.append(f"EscLex (hypothesis of C15_property_name_rendered) fails on the escape table taken from Rust for characters {r[1].get('bad') if r else '?'!r}")
+        else:
+            ctx.stream("lexical contract of the escape table (EscLex)", len(probe), len(probe),
+                       "for every probed character (U+0000..U+024F, the working alphabets, line separators, BOM, zero-width space, an Arabic digit, a CJK and an astral character): "
+                       "what Rust's `{:?}` + the NUL rule writes for it inside a string literal has no bare `\"` and no dangling backslash (`litBodyB`, proven sound for `LitBody`)",
+                       [], {"characters": len(probe), "bad": 0})
     stream_blocks(ctx, proof)
     stream_items(ctx)
     stream_shared(ctx)
     ctx.assumptions += ["TypeScript's lexical structure is the model of Model/Comment.lean (block / line comments, quoted strings with escapes; template literals and regex literals do not occur in generated files)",
-                        "the theorems' context hypothesis (the text before a block ends in code state) is checked on the real outputs by an independent lexer, not proven for every type rendering",
+                        "the theorems' context hypothesis (the text before a block ends in code state) is proven for renderings built from quote-free pieces and string literals (C15_rendered_closed, C15_property_name_rendered) and checked on the real outputs by an independent lexer; not proven for user-written `#[ts(type = ..)]` texts",
                         "Rust's own lexing of /// and /** */ into #[doc] attributes is exercised through syn in-process, not modelled"]
     vlib.settle(ctx)
     return ctx.finish(proof=proof)
